@@ -218,6 +218,8 @@ def relay_stages(cfg):
         st.insert(0, 'tls')
     if cfg.get('auth'):
         st.insert(st.index('mail'), 'auth')
+    if cfg.get('helo_fallback'):
+        st.insert(st.index('ehlo') + 1, 'helo')          # EHLO is answered 500, the client falls back to HELO
     return st
 
 
@@ -235,6 +237,9 @@ def judge_relay(cfg, stage, how):
         script = {stage: 'stall' if how == 'stall' else ('trickle', 0.9 * scope)}
         if stage == 'auth' and how == 'stall-after-334':
             script = {'auth': 'stall-after-334'}
+        if cfg.get('helo_fallback') and stage not in ('banner', 'ehlo'):
+            script['ehlo'] = '500'
+    c.pop('helo_fallback', None)
     c['script'] = script
     w = SmtpRelayWorld(Chooser(), c).run()
     rec = w.results[0]
@@ -242,7 +247,7 @@ def judge_relay(cfg, stage, how):
     base = {'side': 'relay', 'lmtp': bool(cfg.get('lmtp')), 'pipelining': bool(cfg.get('pipelining', True))}
     desc = 'relay %s%s%s n=%d, peer %ss at %s: attempt -> %s at t=%r' % (
         'LMTP' if cfg.get('lmtp') else 'SMTP', '' if cfg.get('pipelining', True) else ' no-pipelining',
-        ''.join(' %s=%r' % (k, cfg[k]) for k in ('tls', 'auth') if cfg.get(k)), cfg['n'], how, stage, whole, rec['end'])
+        ''.join(' %s=%r' % (k, cfg[k]) for k in ('tls', 'auth', 'helo_fallback') if cfg.get(k)), cfg['n'], how, stage, whole, rec['end'])
     out = []
     if stage == 'connect':
         limit = 7.0
@@ -280,6 +285,8 @@ def relay_cases(tier):
         cfgs.append(dict(lmtp=lmtp, n=1, tls='starttls', tls_required=True))
         cfgs.append(dict(lmtp=lmtp, n=1, tls='immediate'))
         cfgs.append(dict(lmtp=lmtp, n=1, tls='starttls', auth=True))
+    cfgs.append(dict(lmtp=False, n=1, helo_fallback=True))
+    cfgs.append(dict(lmtp=False, n=2, helo_fallback=True, pipelining=False))
     for cfg in cfgs:
         yield cfg, 'connect', 'stall'
         for st in relay_stages(cfg):
@@ -307,6 +314,8 @@ def other_cases(tier):
                 if 'block' in delays[:-1] and any(d != 'block' for d in delays[delays.index('block') + 1:]):
                     continue                    # nothing runs after a stuck command
                 cases.append({'kind': 'pipe', 'per_recipient': per, 'n': n, 'delays': list(delays)})
+    for proto in ('smtp', 'lmtp'):
+        cases.append({'kind': 'default-socket', 'proto': proto})
     for mode in ('no-response', 'mid-headers', 'connect', 'mid-body', 'chunked-unfinished', 'slow-body'):
         for ps in (None, 1):
             for it in (None, 5.0):
@@ -314,9 +323,38 @@ def other_cases(tier):
     return cases
 
 
+def judge_default_socket(case):
+    """A relay built without a socket_creator, against a loopback listener that never answers, in a process of its own with an
+    outer time limit (real sockets, real loop: if the default sockets do not yield to the hub no timeout can ever fire)."""
+    import os
+    import subprocess
+    import sys
+    here = os.path.dirname(os.path.dirname(os.path.abspath(__file__)))
+    repo = os.environ.get('VERIF_REPO', '/repo')
+    base = {'side': 'relay-default-socket', 'proto': case['proto']}
+    try:
+        p = subprocess.run([sys.executable, os.path.join(here, 'conformance', 'default_socket.py'), repo, case['proto']],
+                           stdout=subprocess.PIPE, stderr=subprocess.DEVNULL, timeout=8)
+        line = [l for l in p.stdout.decode('utf-8', 'replace').splitlines() if l.startswith('RESULT ')]
+    except subprocess.TimeoutExpired:
+        return [(dict(base, kind='attempt-never-returned'), '%s relay built without a socket_creator, peer accepts the connection and stays silent, '
+                 'timeouts 0.5 s: the attempt (and the whole process) was still blocked after 8 s' % case['proto'].upper())]
+    if not line and b'SKIP' in p.stdout:
+        return []          # no loopback interface in this sandbox: the probe cannot run (the in-memory cases still do)
+    if not line:
+        return [(dict(base, kind='probe-failed'), 'default-socket probe produced no result (exit %d)' % p.returncode)]
+    _, what, secs = line[0].split()
+    if what != 'transient' or float(secs) > 3.0:
+        return [(dict(base, kind='timeout-not-transient' if what != 'transient' else 'attempt-returned-late'),
+                 '%s relay built without a socket_creator against a silent peer: %s after %s s (timeouts 0.5 s)' % (case['proto'].upper(), what, secs))]
+    return []
+
+
 def judge_other(case):
     """-> list of (signature, message).  Every attempt must end, within the relay's single timeout counted from the moment
     it could start (its own call, or the moment the one pooled client was free again)."""
+    if case['kind'] == 'default-socket':
+        return judge_default_socket(case)
     recs = []
     base = {'side': case['kind'] + ('' if case['kind'] == 'http' else ('-per-recipient' if case['per_recipient'] else '-whole'))}
     with World(Chooser(), max_steps=5000, horizon=200.0) as w:
